@@ -213,6 +213,19 @@ pub fn generate_live(prop: &str, seed: u64, tier: &str, out: &mut dyn std::io::W
                 targs.push("-M".to_string());
                 targs.push(format!("{}|-|0:1:r,g:1,0x1000:1:rw", crate::rng::hex(path.as_bytes())));
             }
+            // C06: in some cases a thread waits with its stack pointer in the first part of a file mapping that has an
+            // inaccessible page in its middle (one mapping for the dumper): the copy ends in front of that page
+            if prop == "C06" && Rng::for_case(seed, 616, idx).chance(1, 2) {
+                let path = format!("{}/gapstack.bin", run_dir("shared"));
+                if !std::path::Path::new(&path).exists() {
+                    let bytes: Vec<u8> = (0..12288u32).map(|i| (i * 7 + 1) as u8).collect();
+                    std::fs::write(&path, bytes).unwrap();
+                }
+                targs.push("-M".to_string());
+                targs.push(format!("{}|-|0:1:rw,0x1000:1:n,0x2000:1:rw", crate::rng::hex(path.as_bytes())));
+                targs.push("-w".to_string());
+                targs.push(format!("{}:M0+{}", *Rng::for_case(seed, 617, idx).pick(&[3u64, 4, 22]), *Rng::for_case(seed, 618, idx).pick(&[2048u64, 8, 4000])));
+            }
             let t = match Target::spawn(&targs) {
                 Ok(t) => t,
                 Err(_) => continue,
@@ -268,6 +281,15 @@ pub fn generate_live(prop: &str, seed: u64, tier: &str, out: &mut dyn std::io::W
                     c.gregs[libc::REG_RIP as usize] = *r.pick(&[rip, 0x10, 0x10]) as i64;
                     c.gregs[libc::REG_RSP as usize] = t.read_u64(bt.regs_addr + 80) as i64;
                     cfg.crash = Some(c);
+                }
+                // an earlier request on the same writer, made with a principal address that does resolve and aborted by
+                // its destination, before the recorded request with an address that matches no mapping: nothing of the
+                // earlier request's mapping may be used
+                if !holemod && Rng::for_case(seed, 614, idx).chance(1, 4) {
+                    cfg.pre_principal = Some(rip);
+                    cfg.principal = Some(0x10);
+                    cfg.pre_dumps = 1;
+                    cfg.pre_fail_call = Some(*Rng::for_case(seed, 615, idx).pick(&[3usize, 6, 12, 30]));
                 }
                 if holemod {
                     if let Some(m) = t.desc["lmods"].as_array().and_then(|a| a.first()) {
